@@ -163,6 +163,23 @@ def text_twin(case):
 
 
 def replay_dbg(ctx, payload):
+    if payload.get("kind") == "shared-stdin-session" and "script_on_stdin" in payload:
+        # the real binary again: the script (and the program's input behind it) on stdin vs a plain run
+        import clicommon, os, core
+        exe, out = core.build_lace_cli()
+        if exe is None:
+            log(out[-2000:]); return 2
+        d = clicommon.fresh_dir(ctx, "replayshared")
+        f = os.path.join(d, "echo2.asm"); open(f, "w").write(ECHO2)
+        sc, i = payload["script_on_stdin"], payload.get("program_input", "")
+        rc, so, se = clicommon.run_cli(exe, ["debug", f, "--minimal"], d, stdin=(sc + i).encode(), timeout=20)
+        prc, pso, pse = clicommon.run_cli(exe, ["run", f, "--minimal"], d, stdin=i.encode(), timeout=20)
+        log(f"lace debug (script on stdin): exit {rc}, output {clicommon.program_output(so)!r}, stderr tail {se.decode('utf-8', errors='replace')[-200:]!r}")
+        log(f"lace run                    : exit {prc}, output {clicommon.program_output(pso)!r}")
+        log(f"recorded at check time      : exit {payload.get('cli_exit')} (model {payload.get('model_exit')}), why: {payload.get('why')}")
+        same = rc == prc and clicommon.program_output(so) == clicommon.program_output(pso)
+        if "multi-byte" in payload.get("why", "") or "plain run" in payload.get("why", ""):
+            return 0 if same else 1
     case = payload["case"]
     if case is None:
         log("no case recorded")
@@ -334,7 +351,7 @@ VM_MESSAGES = ("exception: ", "unexpected end of input file stream.", "You calle
                "Note: Run with `-f stack`", "Halting...")
 
 
-def cli_cross(ctx, specs, violations, limit=40, tag="cli"):
+def cli_cross(ctx, specs, violations, limit=40, tag="cli", with_eval=False):
     """A sample of the sessions through the REAL `lace debug --minimal` binary built WITHOUT the lace_verif guard
     (the configuration users run): exit status, program output and debugger stderr against the model (script as text,
     DebugText.v).  Ties the hooked in-process runs to the unhooked program.  Sessions using `eval` or `help` are left
@@ -342,7 +359,8 @@ def cli_cross(ctx, specs, violations, limit=40, tag="cli"):
     import clicommon, os
     exe = ctx.cli()
     rnd = random.Random(ctx.seed + 77)
-    picks = [sp for sp in specs if not any(c[0] in ("eval", "help") for c in sp[4])]
+    # with_eval: sessions using `eval` / `help` are included and compared on exit status and program output only
+    picks = [sp for sp in specs if with_eval or not any(c[0] in ("eval", "help") for c in sp[4])]
     rnd.shuffle(picks)
     picks = picks[:limit]
     if not picks:
@@ -376,7 +394,7 @@ def cli_cross(ctx, specs, violations, limit=40, tag="cli"):
             why = f"exit status {rc}, model {want_rc}"
         elif out is None or out.rstrip("\n") != want_out.rstrip("\n"):
             why = "program output differs"
-        elif err != em:
+        elif err != em and not any(c[0] in ("eval", "help") for c in cmds):
             why = "debugger stderr differs"
         outside = bool(why == "debugger stderr differs" and [msg_class(l) for l in err] == [msg_class(l) for l in em])
         if outside:
@@ -430,29 +448,45 @@ def cli_shared_stream(ctx, violations, n=24):
             safe = False
             for _ in range(rnd.randrange(1, 4)):
                 cmds.insert(rnd.randrange(len(cmds) + 1), rnd.choice(["step into 3", "si 5", "continue", "step", "s", "c", "step into 4"]))
+        wide = safe and k % 4 == 1
+        if wide:
+            # lines with 2-, 3- and 4-byte characters: the one-stream model is ASCII only, so these sessions are
+            # compared with the plain run alone (the debugger's own stdin decoder must hand every line on whole)
+            for _ in range(rnd.randrange(1, 4)):
+                cmds.insert(rnd.randrange(len(cmds) + 1), "echo " + "".join(rnd.choice(["é", "→", "\U0001F34B", "a", " ", "\U00010000", "\U0010FFFF", "ß", "語"]) for _ in range(rnd.randrange(1, 6))))
         if safe or rnd.random() < 0.7:
             cmds.append(rnd.choice(["quit", "q", "QUIT"]))
         sep = rnd.choice(["\n", ";", "\n", " ;\n"])
         script = sep.join(cmds) + rnd.choice(["\n", ";"])
         inp = "".join(rnd.choice("XYZ19 ") for _ in range(rnd.randrange(0, 5)))
-        src = [ord(c) for c in ECHO2]; stream = [ord(c) for c in script + inp]
+        src = [ord(c) for c in ECHO2]; stream = list((script + inp).encode("utf-8"))
         nums = [0, 3000, len(src)] + src + [0, 0, len(stream)] + stream
         cases.append("DBGS " + " ".join(f"{v:x}" for v in nums))
         jobs.append(lambda sc=script, i=inp: (clicommon.run_cli(exe, ["debug", f, "--minimal"], d, stdin=(sc + i).encode(), timeout=20),
                                               clicommon.run_cli(exe, ["run", f, "--minimal"], d, stdin=i.encode(), timeout=20)))
-        metas.append((script, inp, safe))
+        metas.append((script, inp, safe, wide))
     model = ctx.run_model(cases, tag="clishared")
     got = clicommon.parallel(jobs)
     cnt = bad = 0
-    for case, m, ((rc, so, se), (prc, pso, pse)), (script, inp, safe) in zip(cases, model, got, metas):
+    for case, m, ((rc, so, se), (prc, pso, pse)), (script, inp, safe, wide) in zip(cases, model, got, metas):
         fm, em = dbggen.decode_lines(m)
         sm = dbggen.split_first(fm) if fm not in ([9], [8]) else None
+        out = clicommon.program_output(so)
+        pout = clicommon.program_output(pso)
+        if wide:
+            cnt += 1
+            if rc != prc or out != pout:
+                bad += 1
+                if bad <= 3:
+                    violations.append({"kind": "shared-stdin-session", "why": "debugged run (script with multi-byte characters on stdin) differs from the plain run on the same input",
+                                       "case": case, "script_on_stdin": script, "program_input": inp, "cli_exit": rc,
+                                       "cli_stdout": so.decode("utf-8", errors="replace")[-400:], "cli_stderr": se.decode("utf-8", errors="replace")[-400:],
+                                       "plain_exit": prc, "plain_stdout": pso.decode("utf-8", errors="replace")[-400:]})
+            continue
         if sm is None or sm["kind"] in (3, 4):
             continue
         cnt += 1
         want_rc = {0: 0, 1: sm["code"], 2: 101, 7: 0}[sm["kind"]]
-        out = clicommon.program_output(so)
-        pout = clicommon.program_output(pso)
         want_out = "".join(chr(c) for c in sm["out"])
         why = None
         if rc != want_rc:
